@@ -119,7 +119,8 @@ def _make_operator(cd):
         for q, m, n, h, o, f, g in zip(cd['lo'], cd['dom'], cd['ran'], cd['hs'], cd['offs'], df, rf):
             h = fq(h)
             node0 = fq(q) + (0 if f[0] else h / 2)
-            node0 = node0 - o * h if n >= m else node0 + o * h
+            if n != m:
+                node0 = node0 - o * h if n > m else node0 + o * h
             lo = node0 - (0 if g[0] else h / 2)
             rlo.append(float(lo))
             rhi.append(float(lo + span(n, h, g)))
@@ -127,6 +128,16 @@ def _make_operator(cd):
         ran = odl.uniform_discr(rlo, rhi, list(cd['ran']), dtype=cd.get('rdtype') or cd['dtype'], **rkw)
         return odl.ResizingOperator(dom, ran, pad_mode=mode, pad_const=c)
     offs = list(cd['offs'])
+    if cd.get('style') == 'arrays' and all(o is not None for o in offs):
+        # caller-owned ndarrays, overwritten after the construction: the operator must not change with them
+        a_shp = np.array(cd['ran'], dtype=int)
+        a_off = np.array(offs, dtype=int)
+        a_c = np.array(c)
+        op = odl.ResizingOperator(dom, ran_shp=a_shp, offset=a_off, pad_mode=mode, pad_const=a_c, **kw)
+        a_shp[...] = 1
+        a_off[...] = 97
+        a_c[...] = 55
+        return op
     if alt and all(o is not None and o == offs[0] for o in offs):
         offs = int(offs[0])                           # one int for all axes
     return odl.ResizingOperator(dom, ran_shp=ran_shp, offset=offs, pad_mode=mode, pad_const=c, **kw)
@@ -169,7 +180,13 @@ def execute(cd):
                 fill = -7777 if dt.kind in 'iu' else np.nan
                 out = np.full(tuple(cd['ran']), fill, dtype=dt, order=cd.get('order', 'C'))
                 kw['out'] = out
-            if cd.get('style') == 'alt':
+            if cd.get('style') == 'arrays':
+                a_shp, a_off, a_c = np.array(cd['ran'], dtype=int), np.array(cd['offs'], dtype=int), np.array(c)
+                keep = (a_shp.copy(), a_off.copy(), a_c.copy())
+                res = resize_array(arr, a_shp, offset=a_off, pad_mode=cd['mode'], pad_const=a_c, direction=cd['dir'], **kw)
+                if not (np.array_equal(a_shp, keep[0]) and np.array_equal(a_off, keep[1]) and np.array_equal(a_c, keep[2])):
+                    notes.append('argument-modified')
+            elif cd.get('style') == 'alt':
                 # the other accepted spellings of the same call: nested list input, list shape, one int offset,
                 # upper-case option strings, 0-d array pad constant
                 offs = list(cd['offs'])
@@ -217,6 +234,13 @@ def execute(cd):
             notes.append('result-not-in-range')
         if not np.array_equal(xb, x.asarray()):
             notes.append('input-modified')
+        if cd.get('history'):
+            # overwrite what the first call returned and evaluate again: the second result is the one observed
+            res.asarray()[...] = 31
+            res2 = T(x)
+            if res2 is res:
+                notes.append('result-object-reused')
+            res = res2
         return snap_block(res.asarray(), D, cd.get('rdtype') or dtype if v in ('call', 'derivative') else dtype), '', notes, info
     except Exception as e:
         return [], type(e).__name__, notes + [str(e)[:100]], info
